@@ -8,6 +8,19 @@ theorem mem_arith {f s : Int} {n : Nat} {x : Int} :
     x ∈ arith f s n ↔ ∃ k : Nat, k < n ∧ x = f + (k : Int) * s := by
   simp [arith, eq_comm]
 
+theorem arith_zero (f s : Int) : arith f s 0 = [] := rfl
+
+theorem arith_succ (f s : Int) (n : Nat) : arith f s (n + 1) = f :: arith (f + s) s n := by
+  unfold arith
+  rw [List.range_succ_eq_map, List.map_cons, List.map_map]
+  congr 1
+  · simp
+  · apply List.map_congr_left
+    intro a _
+    simp only [Function.comp]
+    push_cast
+    rw [Int.add_mul]; omega
+
 theorem arith_ne_nil {f s : Int} {n : Nat} (h : n ≠ 0) : arith f s n ≠ [] := by
   intro hc
   have := congrArg List.length hc
